@@ -75,7 +75,7 @@ Lemma visit_SIf : forall pk nd tc body orelse st,
   visit_stmt pk nd (SIf tc body orelse) st =
   (let prev := guarded st in
    let st1 := if is_level pk && tc then set_guard st true else st in
-   let st2 := visit_list PIf None (head_doc orelse) body st1 in
+   let st2 := visit_list PIf None None body st1 in
    set_guard (visit_list PIf (Some prev) None orelse st2) prev).
 Proof. reflexivity. Qed.
 
@@ -115,7 +115,7 @@ Proof. reflexivity. Qed.
 
 Lemma sem_SIf : forall g pk nd tc body orelse own up,
   sem_stmt g pk nd (SIf tc body orelse) own up =
-  (let a := sem_list (g || (is_level pk && tc)) PIf (head_doc orelse) body own up in
+  (let a := sem_list (g || (is_level pk && tc)) PIf None body own up in
    let b := sem_list g PIf None orelse (l_own a) (l_up a) in
    mkL (l_own b) (l_up b) (l_events a ++ l_events b) (first_err (l_err a) (l_err b))).
 Proof. reflexivity. Qed.
@@ -315,8 +315,8 @@ Proof.
     split; [exact S|]. split; [apply same_shape_refl|]. intros _. split; auto.
   - (* SIf *)
     rewrite sem_SIf. cbv zeta.
-    destruct (sem_facts_list_of _ H (g || (is_level pk && tc)) PIf (head_doc orelse) own up) as [A1 [A2 A3]].
-    set (a := sem_list (g || (is_level pk && tc)) PIf (head_doc orelse) body own up) in *.
+    destruct (sem_facts_list_of _ H (g || (is_level pk && tc)) PIf None own up) as [A1 [A2 A3]].
+    set (a := sem_list (g || (is_level pk && tc)) PIf None body own up) in *.
     destruct (sem_facts_list_of _ H0 g PIf None (l_own a) (l_up a)) as [B1 [B2 B3]].
     set (b := sem_list g PIf None orelse (l_own a) (l_up a)) in *.
     cbn beta iota delta [l_own l_up l_events l_err fst snd]. split; [eapply same_shape_trans; eauto|]. split; [eapply same_shape_trans; eauto|].
@@ -444,9 +444,9 @@ Proof.
     assert (G1 : guarded st1 = g || (is_level pk && tc)) by (unfold st1; destruct (is_level pk && tc), g; reflexivity).
     assert (E1 : events st1 = evs) by (unfold st1; destruct (is_level pk && tc); reflexivity).
     assert (R1 : err st1 = er) by (unfold st1; destruct (is_level pk && tc); reflexivity).
-    rewrite (ref_list_of _ H PIf None (head_doc orelse) st1 own up rest S1).
+    rewrite (ref_list_of _ H PIf None None st1 own up rest S1).
     unfold list_guard. rewrite G1.
-    set (a := sem_list (g || (is_level pk && tc)) PIf (head_doc orelse) body own up).
+    set (a := sem_list (g || (is_level pk && tc)) PIf None body own up).
     match goal with |- context [visit_list PIf (Some g) None orelse ?s2] => set (st2 := s2) end.
     assert (S2 : stack st2 = l_own a :: l_up a :: rest) by reflexivity.
     rewrite (ref_list_of _ H0 PIf (Some g) None st2 (l_own a) (l_up a) rest S2).
@@ -476,76 +476,40 @@ Proof.
   simpl. destruct (l_err r); [reflexivity|]. reflexivity.
 Qed.
 
-(* ================= totality: the only Python error is an @overload def directly in a class's __init__ ================= *)
-Definition err_of_gap (b : bool) : option string := if b then Some "TypeError" else None.
-Lemma first_err_gap : forall a b, first_err (err_of_gap a) (err_of_gap b) = err_of_gap (a || b).
-Proof. destruct a, b; reflexivity. Qed.
-
-Lemma gap_SDef : forall k ln dln eln name a ds body,
-  gap_overload_in_init k (SDef ln dln eln name a ds body) =
-  (match k with InInit => negb (def_is_property a ds) && def_is_overload ds | _ => false end)
-  || (match k with
-      | InClass => if String.eqb name "__init__" && negb (def_is_property a ds) then gap_overload_in_init_list InInit body else false
-      | _ => false end).
-Proof. reflexivity. Qed.
-Lemma gap_SCls : forall k ln dln eln name ds body,
-  gap_overload_in_init k (SCls ln dln eln name ds body) = gap_overload_in_init_list InClass body.
-Proof. reflexivity. Qed.
-Lemma gap_SIf : forall k tc body orelse,
-  gap_overload_in_init k (SIf tc body orelse) = gap_overload_in_init_list k body || gap_overload_in_init_list k orelse.
-Proof. reflexivity. Qed.
-Lemma gap_SBlock : forall k ch, gap_overload_in_init k (SBlock ch) = gap_overload_in_init_list k ch.
-Proof. reflexivity. Qed.
-Lemma gap_SSub : forall k h body, gap_overload_in_init k (SSub h body) = gap_overload_in_init_list k body.
-Proof. reflexivity. Qed.
-
-Definition err_stmt (s : stmt) : Prop := forall g pk nd own up,
-  l_err (sem_stmt g pk nd s own up) = err_of_gap (gap_overload_in_init (fkind own) s).
-Definition err_list (l : list stmt) : Prop := forall g pk follow own up,
-  l_err (sem_list g pk follow l own up) = err_of_gap (gap_overload_in_init_list (fkind own) l).
+(* ================= totality: no statement list makes the visitor raise ================= *)
+Definition err_stmt (s : stmt) : Prop := forall g pk nd own up, l_err (sem_stmt g pk nd s own up) = None.
+Definition err_list (l : list stmt) : Prop := forall g pk follow own up, l_err (sem_list g pk follow l own up) = None.
 
 Lemma err_list_of : forall l, Forall err_stmt l -> err_list l.
 Proof.
   induction 1 as [|x r Hx Hr IH]; intros g pk follow own up.
   - reflexivity.
-  - rewrite sem_list_cons. cbv zeta. cbn [l_err]. rewrite Hx, IH.
-    destruct (sem_facts_all x g pk (next_doc r follow) own up) as [[E _] _]. rewrite E.
-    rewrite first_err_gap. reflexivity.
+  - rewrite sem_list_cons. cbv zeta. cbn [l_err]. rewrite Hx, IH. reflexivity.
 Qed.
 
-Lemma snd_op_def : forall g ln dln eln name a ds doc f,
-  snd (op_def g ln dln eln name a ds doc f) =
-  err_of_gap (match fkind f with InInit => negb (def_is_property a ds) && def_is_overload ds | _ => false end).
+Lemma snd_op_def : forall g ln dln eln name a ds doc f, snd (op_def g ln dln eln name a ds doc f) = None.
 Proof.
-  intros. unfold op_def. destruct (def_is_property a ds); simpl.
-  - destruct (fkind f); reflexivity.
-  - destruct (def_is_overload ds); simpl.
-    + destruct (fkind f); reflexivity.
-    + destruct (base_property (fmembers f) name ds); simpl; destruct (fkind f); reflexivity.
+  intros. unfold op_def. destruct (def_is_property a ds); simpl; [reflexivity|].
+  destruct (def_is_overload ds); simpl; [reflexivity|].
+  destruct (base_property (fmembers f) name ds); reflexivity.
 Qed.
 
 Lemma err_stmt_all : forall s, err_stmt s.
 Proof.
   induction s using stmt_ind2; intros g pk nd own up.
-  - rewrite sem_SDef, gap_SDef. cbv zeta.
+  - rewrite sem_SDef. cbv zeta.
     pose proof (snd_op_def g ln dln eln name a ds (head_doc body) own) as E.
-    unfold descends. destruct (fkind own) eqn:K.
-    + cbn [l_err]. rewrite E. reflexivity.
-    + destruct (String.eqb name "__init__" && negb (def_is_property a ds)) eqn:D.
-      * cbn [l_err]. rewrite E. rewrite (err_list_of _ H). reflexivity.
-      * cbn [l_err]. rewrite E. reflexivity.
-    + cbn [l_err]. rewrite E. rewrite orb_false_r. reflexivity.
-  - rewrite sem_SCls, gap_SCls. cbv zeta. cbn [l_err]. rewrite (err_list_of _ H). reflexivity.
+    destruct (descends own name a ds); cbn [l_err]; rewrite E; [|reflexivity].
+    rewrite (err_list_of _ H). reflexivity.
+  - rewrite sem_SCls. cbv zeta. cbn [l_err]. apply (err_list_of _ H).
   - simpl sem_stmt. destruct (op_attr pk g ln eln ts true false items nd own up) as [[? ?] ?]. reflexivity.
   - simpl sem_stmt. destruct (op_attr pk g ln eln [t] hv cv items nd own up) as [[? ?] ?]. reflexivity.
   - reflexivity.
   - simpl sem_stmt. destruct (op_import g ln eln names own). reflexivity.
   - simpl sem_stmt. destruct (op_importfrom g ln eln names own). reflexivity.
-  - rewrite sem_SIf, gap_SIf. cbv zeta. cbn [l_err]. rewrite (err_list_of _ H), (err_list_of _ H0).
-    destruct (sem_list_facts body (g || (is_level pk && tc)) PIf (head_doc orelse) own up) as [[E _] _]. rewrite E.
-    apply first_err_gap.
-  - rewrite sem_SBlock, gap_SBlock. apply (err_list_of _ H).
-  - rewrite sem_SSub, gap_SSub. apply (err_list_of _ H).
+  - rewrite sem_SIf. cbv zeta. cbn [l_err]. rewrite (err_list_of _ H), (err_list_of _ H0). reflexivity.
+  - rewrite sem_SBlock. apply (err_list_of _ H).
+  - rewrite sem_SSub. apply (err_list_of _ H).
   - reflexivity.
   - reflexivity.
 Qed.
@@ -553,19 +517,11 @@ Qed.
 Lemma err_list_all : forall l, err_list l.
 Proof. intros. apply err_list_of. apply Forall_forall. intros. apply err_stmt_all. Qed.
 
-Theorem visit_total_exact : forall mname body,
-  (gap_overload_in_init_list InModule body = false -> exists r, run_visit mname body = Ok r) /\
-  (gap_overload_in_init_list InModule body = true -> run_visit mname body = Err "TypeError").
+Theorem visit_total : forall mname body, exists r, run_visit mname body = Ok r.
 Proof.
   intros. rewrite machine_computes_level_semantics. unfold spec_module.
-  rewrite (err_list_all body false PScope None (empty_frame InModule mname mname) sentinel). simpl fkind.
-  split; intros E; rewrite E; simpl; eauto.
+  rewrite (err_list_all body false PScope None (empty_frame InModule mname mname) sentinel). eauto.
 Qed.
-
-Definition overload_in_init_witness : list stmt :=
-  [SCls 1 1 4 "C" [] [SDef 2 2 4 "__init__" false [] [SDef 4 3 4 "f" false [DPath "typing.overload"] [SOther]]]].
-Lemma visit_total_refuted : run_visit "m" overload_in_init_witness = Err "TypeError".
-Proof. vm_compute. reflexivity. Qed.
 
 (* ================= events: bracket discipline ================= *)
 Lemma check_events_app : forall a b open,
@@ -602,25 +558,13 @@ Proof.
   destruct (lookup n (fmembers f)) as [ex|].
   - destruct cond; auto.
     match goal with |- context [attr_loop ?c ?g ?a ?b ?i ?p r ?l ?d ?f2] =>
+      assert (P : fpath f2 = fpath f) by (destruct (String.eqb n "__all__" && items_ok items); reflexivity);
       specialize (IH l d f2 open); destruct (attr_loop c g a b i p r l d f2) as [f3 evs] end.
-    simpl in *. unfold brk in *. simpl. rewrite String.eqb_refl. simpl.
-    replace (fpath f) with (fpath (if String.eqb n "__all__" && items_ok items
-                                   then set_exports (set_members f (assign n (leaf (mkInfo KAttr ln eln (negb g)
-                                          (if match ikind (oinfo ex) with KAlias => false | _ => true end then lunion labels (ilabels (oinfo ex)) else labels)
-                                          (if match ikind (oinfo ex) with KAlias => false | _ => true end then match doc with Some d => Some d | None => idoc (oinfo ex) end else doc) "")) (fmembers f))) (Some items)
-                                   else set_members f (assign n (leaf (mkInfo KAttr ln eln (negb g)
-                                          (if match ikind (oinfo ex) with KAlias => false | _ => true end then lunion labels (ilabels (oinfo ex)) else labels)
-                                          (if match ikind (oinfo ex) with KAlias => false | _ => true end then match doc with Some d => Some d | None => idoc (oinfo ex) end else doc) "")) (fmembers f)))).
-    + exact IH.
-    + destruct (String.eqb n "__all__" && items_ok items); reflexivity.
+    simpl in *. unfold brk in *. simpl. rewrite String.eqb_refl. simpl. rewrite P in IH. exact IH.
   - match goal with |- context [attr_loop ?c ?g ?a ?b ?i ?p r ?l ?d ?f2] =>
+      assert (P : fpath f2 = fpath f) by (destruct (String.eqb n "__all__" && items_ok items); reflexivity);
       specialize (IH l d f2 open); destruct (attr_loop c g a b i p r l d f2) as [f3 evs] end.
-    simpl in *. unfold brk in *. simpl. rewrite String.eqb_refl. simpl.
-    replace (fpath f) with (fpath (if String.eqb n "__all__" && items_ok items
-                                   then set_exports (set_members f (assign n (leaf (mkInfo KAttr ln eln (negb g) labels doc "")) (fmembers f))) (Some items)
-                                   else set_members f (assign n (leaf (mkInfo KAttr ln eln (negb g) labels doc "")) (fmembers f)))).
-    + exact IH.
-    + destruct (String.eqb n "__all__" && items_ok items); reflexivity.
+    simpl in *. unfold brk in *. simpl. rewrite String.eqb_refl. simpl. rewrite P in IH. exact IH.
 Qed.
 
 Lemma parent_ok_frame : forall f p open, (fkind f <> InInit -> p = fpath f) -> parent_ok (p :: open) (fpath f) (frame_pfun f) = true.
@@ -726,7 +670,7 @@ Proof.
   - simpl sem_stmt. pose proof (brk_op_importfrom g ln eln names own (level_path own up) open) as B.
     destruct (op_importfrom g ln eln names own). cbn [l_events]. apply B. intros. eapply level_path_own; eauto.
   - rewrite sem_SIf. cbv zeta. cbn [l_events]. apply brk_app; [apply (brk_list_of _ H)|].
-    destruct (sem_list_facts body (g || (is_level pk && tc)) PIf (head_doc orelse) own up) as [A1 [A2 _]].
+    destruct (sem_list_facts body (g || (is_level pk && tc)) PIf None own up) as [A1 [A2 _]].
     rewrite <- (level_path_shape own up _ _ A1 A2). apply (brk_list_of _ H0).
   - rewrite sem_SBlock. apply (brk_list_of _ H).
   - rewrite sem_SSub. apply (brk_list_of _ H).
@@ -1038,10 +982,10 @@ Proof.
     unfold receiver, level_names. rewrite Sa. destruct (fkind own); try exact Ka. reflexivity.
   - (* SIf *)
     rewrite sem_SIf. cbv zeta. cbn [l_own l_up].
-    destruct (sem_list_facts body (g || (is_level pk && tc)) PIf (head_doc orelse) own up) as [A1 _].
-    set (a := sem_list (g || (is_level pk && tc)) PIf (head_doc orelse) body own up) in *.
+    destruct (sem_list_facts body (g || (is_level pk && tc)) PIf None own up) as [A1 _].
+    set (a := sem_list (g || (is_level pk && tc)) PIf None body own up) in *.
     pose proof (names_list_of _ H0 g PIf None (l_own a) (l_up a)) as B. cbv zeta in B. rewrite B.
-    pose proof (names_list_of _ H (g || (is_level pk && tc)) PIf (head_doc orelse) own up) as C. cbv zeta in C. fold a in C. rewrite C.
+    pose proof (names_list_of _ H (g || (is_level pk && tc)) PIf None own up) as C. cbv zeta in C. fold a in C. rewrite C.
     rewrite (level_names_shape own (l_own a) g PIf orelse A1), <- extend_app. f_equal.
     unfold level_names, level_names_list. destruct (fkind own); rewrite ?lb_SIf, ?ib_SIf, map_app; reflexivity.
   - (* SBlock *)
@@ -1333,9 +1277,9 @@ Proof.
   - (* SIf *)
     rewrite ha_SIf in HA. apply orb_false_elim in HA. destruct HA as [HA1 HA2].
     rewrite sem_SIf. cbv zeta. cbn [l_own l_up].
-    destruct (sem_list_facts body (g || (is_level pk && tc)) PIf (head_doc orelse) own up) as [A1 _].
-    pose proof (surv_list_of _ H n (g || (is_level pk && tc)) PIf (head_doc orelse) own up c HA1 HR) as C. cbv zeta in C.
-    set (a := sem_list (g || (is_level pk && tc)) PIf (head_doc orelse) body own up) in *.
+    destruct (sem_list_facts body (g || (is_level pk && tc)) PIf None own up) as [A1 _].
+    pose proof (surv_list_of _ H n (g || (is_level pk && tc)) PIf None own up c HA1 HR) as C. cbv zeta in C.
+    set (a := sem_list (g || (is_level pk && tc)) PIf None body own up) in *.
     pose proof (surv_list_of _ H0 n g PIf None (l_own a) (l_up a) _ HA2 C) as B. cbv zeta in B.
     rewrite (level_binds_shape own (l_own a) g PIf orelse A1) in B.
     assert (E : level_binds own g pk (SIf tc body orelse) =
@@ -1389,31 +1333,33 @@ Proof.
   rewrite E in S. simpl fkind in S. simpl fpath in S. cbv iota in S. apply S. reflexivity.
 Qed.
 
-(* ================= witnesses of the known defects that the model reproduces ================= *)
+(* ================= regression examples for repaired defects, witness of the remaining one ================= *)
 Definition member_doc (mname : string) (body : list stmt) (n : string) : option (option nat) :=
   match run_visit mname body with Ok r => option_map (fun o => idoc (oinfo o)) (lookup n (r_members r)) | Err _ => None end.
 Definition member_labels (mname : string) (body : list stmt) (n : string) : option (list string) :=
   match run_visit mname body with Ok r => option_map (fun o => ilabels (oinfo o)) (lookup n (r_members r)) | Err _ => None end.
 
-(* F2:  if c: x = 1 / else: 'string'   -- the string in the else branch becomes the docstring of x *)
+(* was F2:  if c: x = 1 / else: 'string'   -- the string of the else branch is not the docstring of x *)
 Definition doc_else_witness : list stmt := [SIf false [SAssign 2 2 [TName "x"] []] [SDoc 4 4]].
-(* F3:  x = 1 / 'doc of x' / async def y(): ... / x = y = 2   -- y receives the docstring of the old x *)
+(* was F3:  x = 1 / 'doc of x' / async def y(): ... / x = y = 2   -- x keeps its docstring, y gets its own labels only *)
 Definition chained_leak_witness : list stmt :=
   [SAssign 1 1 [TName "x"] []; SDoc 2 2; SDef 3 3 3 "y" true [] [SOther]; SAssign 4 4 [TName "x"; TName "y"] []].
-Lemma attribute_docstring_refuted :
-  member_doc "m" doc_else_witness "x" = Some (Some 4) /\
-  member_doc "m" chained_leak_witness "y" = Some (Some 2).
-Proof. split; vm_compute; reflexivity. Qed.
+(* was F1:  class C: def __init__(self): @overload def f(): ... *)
+Definition overload_in_init_witness : list stmt :=
+  [SCls 1 1 4 "C" [] [SDef 2 2 4 "__init__" false [] [SDef 4 3 4 "f" false [DPath "typing.overload"] [SOther]]]].
+Example repaired_defects :
+  member_doc "m" doc_else_witness "x" = Some None /\
+  member_doc "m" chained_leak_witness "x" = Some (Some 2) /\
+  member_doc "m" chained_leak_witness "y" = Some None /\
+  member_labels "m" chained_leak_witness "y" = Some ["module-attribute"; "async"] /\
+  (exists r, run_visit "m" overload_in_init_witness = Ok r).
+Proof. repeat split; try (vm_compute; reflexivity). eexists. vm_compute. reflexivity. Qed.
 
 (* F6:  @overload def f(): ...  alone binds f in Python and yields no member *)
 Definition overload_only_witness : list stmt := [SDef 2 1 2 "f" false [DPath "typing.overload"] [SOther]].
 Lemma overload_only_refuted :
   exists r, run_visit "m" overload_only_witness = Ok r /\ r_members r = [].
 Proof. eexists. split; vm_compute; reflexivity. Qed.
-
-(* ---- statements packaged for Properties/C01.v ---- *)
-Lemma visit_total_refuted_ex : exists body, run_visit "m" body = Err "TypeError".
-Proof. exists overload_in_init_witness. exact visit_total_refuted. Qed.
 
 (* non-vacuity: a module on which every hypothesis of the theorems holds and several rules fire *)
 Definition sample_module : list stmt :=
@@ -1426,7 +1372,7 @@ Definition sample_module : list stmt :=
    SDef 15 15 15 "x" false [] [SOther];
    SBlock [SAssign 17 17 [TName "x"] []; SSub true [SAssign 19 19 [TName "x"] []]]].
 Example sample_module_ok :
-  gap_overload_in_init_list InModule sample_module = false /\ has_accessor_list sample_module = false /\
+  has_accessor_list sample_module = false /\
   first_names [] (level_bindings_list InModule "m" false PScope sample_module) = ["os"; "T"; "x"; "C"] /\
   option_map bsum (survivor "x" None (level_bindings_list InModule "m" false PScope sample_module)) = Some (KAttr, 17, true) /\
   option_map bsum (survivor "T" None (level_bindings_list InModule "m" false PScope sample_module)) = Some (KAlias, 4, false).
